@@ -15,7 +15,7 @@ import math
 import signal
 from fractions import Fraction as F
 
-from vlib import core
+from vlib import core, crshist
 from vlib.core import cbool, clist, copt, cq, ctuple, cz
 
 ID = "C07"
@@ -499,10 +499,12 @@ def gen_cases(out, tier):
 
     rng = core.rng("c07")
     cases = []
+    preds = []
     escapes = 0
 
-    def add(kind, text, canon, nontrivial=True, sample=None):
+    def add(kind, text, canon, nontrivial=True, sample=None, pred=None):
         cases.append(text)
+        preds.append(pred)      # the property predicate that judges this very input, should model and code disagree
         out.count(kind)
         out.case((kind, canon), nontrivial, sample)
 
@@ -534,7 +536,8 @@ def gen_cases(out, tier):
         t, kind = cres(cpts, lambda: densify([tuple(p) for p in coords], res))
         got = densify([tuple(p) for p in coords], res)
         add("densify:" + kind, f"CDensify {cpts(coords)} {cq(F(res))} {t}", (coords, res), len(got) > len(coords),
-            {"op": "densify", "coords": coords, "resolution": res, "result": [list(p) for p in got]} if i < 2 else None)
+            {"op": "densify", "coords": coords, "resolution": res, "result": [list(p) for p in got]} if i < 2 else None,
+            pred=("densify", coords, res))
         out.count("densify:inserted=%s" % ("0" if len(got) == len(coords) else "1-9" if len(got) - len(coords) < 10 else ">=10"))
     # free-form small-integer polylines; only those the shadow finds exact are used
     for i in range(300 if tier == "quick" else 3000):
@@ -574,14 +577,15 @@ def gen_cases(out, tier):
         for k in set(gkinds(g)):
             out.count("segmented-kind:" + k)
         add("segmented:" + kind, f"CSegmented {cgeom(g)} {cq(F(res))} {t}", (g, res), True,
-            {"op": "segmented", "geom": g, "resolution": res} if i < 1 else None)
+            {"op": "segmented", "geom": g, "resolution": res} if i < 1 else None,
+            pred=("segmented", g, res) if res > 0 else ("nonpositive", g, res))
     for i in range(40 if tier == "quick" else 400):
         g, res, v = gen_fine_coarse(rng)
         if not shadow_geom(g, res):
             escapes += 1
             continue
         t, kind = cres(cgeom, lambda: with_timeout(15, lambda: real_segmented(g, res)))
-        add("segmented-fine/coarse:" + v, f"CSegmented {cgeom(g)} {cq(F(res))} {t}", (g, res))
+        add("segmented-fine/coarse:" + v, f"CSegmented {cgeom(g)} {cq(F(res))} {t}", (g, res), pred=("segmented", g, res))
     for g in (["Line", []], ["Polygon", [], []], ["Multi", "MCollection", []], ["Multi", "MLine", []],
               ["Multi", "MCollection", [["Line", []], ["Point", [1.0, 1.0]]]]):
         t, kind = cres(cgeom, lambda: real_segmented(g, 1.0))
@@ -659,11 +663,13 @@ def gen_cases(out, tier):
             got = with_timeout(25, lambda: G0.to_crs(dst, resolution=res, wrapdateline=wrap, check_and_fix=cf))
         except ValueError:
             add("to_crs:ValueError", f"CToCrs {copt(cls.get(src))} {cgeom(g)} {copt(cls.get(dst))} {cresolution(res)} "
-                f"{cbool(wrap)} {cbool(cf)} {cbool(geo)} true [] (Err EValue)", (src, g, dst, str(res)))
+                f"{cbool(wrap)} {cbool(cf)} {cbool(geo)} true [] (Err EValue)", (src, g, dst, str(res)),
+                pred=("to_crs", src, g, dst, res, wrap, cf))
             continue
         if got is G0:
             add("to_crs:same-object", f"CToCrs {copt(cls.get(src))} {cgeom(g)} {copt(cls.get(dst))} {cresolution(res)} "
-                f"{cbool(wrap)} {cbool(cf)} {cbool(geo)} true [] (Ok None)", (src, g, dst, str(res)))
+                f"{cbool(wrap)} {cbool(cf)} {cbool(geo)} true [] (Ok None)", (src, g, dst, str(res)),
+                pred=("to_crs", src, g, dst, res, wrap, cf))
             continue
         dense = from_shapely(G0.segmented(r_eff).geom) if r_eff is not None else g
         vs = verts(dense)
@@ -694,11 +700,12 @@ def gen_cases(out, tier):
             f"CToCrs {copt(cls.get(src))} {cgeom(g)} {copt(cls.get(dst))} {cresolution(res)} "
             f"{cbool(wrap)} {cbool(cf)} {cbool(geo)} {cbool(valid)} "
             f"{clist(tab, lambda e: ctuple(cpt(e[0]), cpt(e[1])))} {exp}", (src, g, dst, str(res), wrap, cf), True,
-            {"op": "to_crs", "src": src, "dst": dst, "resolution": str(res), "geom": g} if i < 3 else None)
+            {"op": "to_crs", "src": src, "dst": dst, "resolution": str(res), "geom": g} if i < 3 else None,
+            pred=("to_crs", src, g, dst, res, wrap, cf))
         for k in set(gkinds(g)):
             out.count("to_crs-kind:" + k)
     out.count("generator-escapes(float-inexact, discarded)", escapes)
-    return cases
+    return cases, preds
 
 
 # ------------------------------------------------------------------ time-outs (non-termination is one of the defects)
@@ -839,11 +846,15 @@ def p_tocrs(src, g, dst, res, wrap=False, cf=False):
     res_ = res
     if isinstance(res, str) and res != "auto":
         res_ = float(res)
+    res_obj = res_
+    if isinstance(res, (list, tuple)):       # [representation, value]: the same number in another numeric type
+        res_obj = mk_resolution(res[0], res[1])
+        res_ = float(res[1])
     G0 = Geometry(to_shapely(g), src)
     try:
-        got = with_timeout(25, lambda: G0.to_crs(dst, resolution=res_, wrapdateline=wrap, check_and_fix=cf))
+        got = with_timeout(25, lambda: G0.to_crs(dst, resolution=res_obj, wrapdateline=wrap, check_and_fix=cf))
     except Hang:
-        return False, "to_crs did not return within 5 s"
+        return False, "to_crs did not return within 25 s"
     except ValueError as e:
         return (src is None or dst is None), f"ValueError: {e}"
     if src is None or dst is None:
@@ -873,6 +884,18 @@ def p_tocrs(src, g, dst, res, wrap=False, cf=False):
     if b is None:
         b = from_shapely(base.geom)
     r = from_shapely(got.geom)
+    if r_eff is not None and math.isfinite(r_eff) and r_eff > 0:
+        # independent of any densification reference: pull the result back with pyproj and measure the edges
+        bk = pyproj_tr(dst, src)
+        scale = 1 + max([abs(c) for v in verts(g) for c in v] or [0.0])
+        bound = r_eff * (1 + 1e-6) + 1e-9 * scale
+        for path in paths_of(r):
+            pts_ = [bk.transform(w[0], w[1]) for w in path]
+            for a_, b_ in zip(pts_[:-1], pts_[1:]):
+                d_ = math.hypot(a_[0] - b_[0], a_[1] - b_[1])
+                if d_ > bound:
+                    return False, (f"resolution {res!r}: after mapping the result back with pyproj an edge is {d_:.6g} source "
+                                   f"units long (bound {bound:.9g} = r(1+1e-6) + 1e-9(1+max|coordinate|))")
     if skeleton(b) != skeleton(r):
         return False, f"type/structure/vertex count changed: {skeleton(b)} -> {skeleton(r)}"
     tr = pyproj_tr(src, dst)
@@ -884,6 +907,54 @@ def p_tocrs(src, g, dst, res, wrap=False, cf=False):
         elif (x, y) != (w[0], w[1]):
             return False, f"vertex {v} maps to {w}, pyproj maps it to {(x, y)}"
     return True, "ok"
+
+
+RES_KINDS = ["int", "float", "np.float64", "np.float32", "np.float16", "np.int64", "np.int32",
+             "0d-float64", "0d-float32", "0d-int64"]
+
+
+def mk_resolution(kind, value):
+    import numpy as np
+
+    if kind == "int":
+        return int(value)
+    if kind == "float":
+        return float(value)
+    if kind.startswith("np."):
+        return getattr(np, kind[3:])(value)
+    return np.array(value, dtype=kind[3:])
+
+
+def p_many_crs(n, salt, lonlat):
+    """a process that deals with many CRSs: the same small geometry (lon/lat `lonlat`, offsets from each central
+    meridian) is reprojected into n distinct custom transverse-mercator CRSs and back, twice over; every vertex of
+    every result must be exactly what a FRESH pyproj Transformer gives for that pair"""
+    import gc
+
+    import pyproj
+    from odc.geo.geom import Geometry
+
+    for rnd in range(2):
+        for k in range(n):
+            lon0 = -170 + ((k * 7 + salt * 3) % 340) + (k % 8) / 8
+            spec = f"+proj=tmerc +lat_0=0 +lon_0={lon0!r} +k=0.9996 +x_0={500000 + k} +y_0={salt} +ellps=GRS80 +units=m +no_defs"
+            ll = [[lon0 + p[0], p[1]] for p in lonlat]
+            G0 = Geometry(to_shapely(["Line", ll] if len(ll) > 1 else ["Point", ll[0]]), "EPSG:4326")
+            got = G0.to_crs(spec)
+            ref = pyproj.Transformer.from_crs("EPSG:4326", pyproj.CRS.from_user_input(spec), always_xy=True)
+            for v, w in zip(ll, verts(from_shapely(got.geom))):
+                if tuple(ref.transform(v[0], v[1])) != (w[0], w[1]):
+                    return False, (f"round {rnd}, CRS number {k} ({spec}): vertex {v} maps to {w}, a fresh pyproj Transformer "
+                                   f"maps it to {ref.transform(v[0], v[1])}")
+            back = got.to_crs("EPSG:4326")
+            refb = pyproj.Transformer.from_crs(pyproj.CRS.from_user_input(spec), "EPSG:4326", always_xy=True)
+            for v, w in zip(verts(from_shapely(got.geom)), verts(from_shapely(back.geom))):
+                if tuple(refb.transform(v[0], v[1])) != (w[0], w[1]):
+                    return False, (f"round {rnd}, CRS number {k} ({spec}) back to EPSG:4326: vertex {v} maps to {w}, a fresh "
+                                   f"pyproj Transformer maps it to {refb.transform(v[0], v[1])}")
+            del G0, got, back
+        gc.collect()
+    return True, f"{2 * n} conversions there and back agree with pyproj"
 
 
 def p_roundtrip(src, g, dst):
@@ -1098,6 +1169,13 @@ def p_history(src, dst, hist, lonlat):
     return True, "ok"
 
 
+# CRS alphabets of the after-history block (Australia; used nowhere else in this check), one per history so that
+# each perturbation is the first use of its pairs
+HIST_SPECS = {"authority-order-first": ["EPSG:4283", "EPSG:3577", "EPSG:32755", "EPSG:28355"],
+              "queries-first": ["EPSG:7844", "EPSG:3112", "EPSG:32754", "EPSG:28354"]}
+HIST_AREA = (146.0, -35.0)
+
+
 AM_SOURCES = [("EPSG:32660", "west"), ("EPSG:3832", "west"), ("EPSG:3832", "east"), ("EPSG:3857", "west"),
               ("EPSG:3857", "east"), ("EPSG:32601", "east"), ("EPSG:32660", "cross"), ("EPSG:3832", "cross")]
 
@@ -1140,10 +1218,11 @@ def gen_antimeridian(rng, src, side):
 
 PREDICATES = {"transformer": p_transformer, "densify": p_densify, "segmented": p_segmented, "retain": p_retain, "nonpositive": p_nonpositive,
               "to_crs": p_tocrs, "roundtrip": p_roundtrip, "wrapdateline": p_wrap, "wrapdateline+resolution": p_wrap_res,
-              "history": p_history}
+              "history": p_history, "many_crs": p_many_crs}
+PREDICATES["after_history"] = crshist.after_history(PREDICATES)
 
 
-def search(out, tier):
+def search(out, tier, first=()):
     rng = core.rng("c07-search")
     found = {}
     worst_rt = [0.0]
@@ -1166,6 +1245,8 @@ def search(out, tier):
 
     for rp in core.corpus(ID):
         run(rp["predicate"], *rp["args"])
+    for pr in first:
+        run(*pr)
     # densify / segmented on the exactness domain (no float operation rounds: checked by the shadow)
     n = 600 if tier == "quick" else 8000
     used = 0
@@ -1242,6 +1323,52 @@ def search(out, tier):
             hist = [[rng.choice(["fwd", "rev"]), False]] + hist[:2]
         lonlat = [[12 + rng.uniform(-2, 2), 50 + rng.uniform(-2, 2)] for _ in range(rng.randint(1, 3))]
         run("history", src, dst, hist, lonlat)
+    # the resolution in every numeric representation (exactness domain: axis-aligned box with a hole whose edges are
+    # resolution * 2^k, values exactly representable - also when accumulated - in the narrowest type, float16)
+    for i in range(40 if tier == "quick" else 300):
+        kind = RES_KINDS[i % len(RES_KINDS)]
+        src = rng.choice(["EPSG:3857", "EPSG:32633", SINU, "EPSG:3035"])
+        x0, y0, _ = AREA[src]
+        v = float(rng.choice([4, 8, 16, 64] if ("int" in kind or rng.random() < 0.5) else [2.5, 0.5, 12.0, 96.0]))
+        g = ["Polygon", rect(x0, y0, 32 * v, 16 * v, cw=rng.random() < 0.5), [rect(x0 + 4 * v, y0 + 4 * v, 8 * v, 4 * v)]]
+        if rng.random() < 0.3:
+            g = ["Multi", "MCollection", [["Line", [[x0, y0 - 8 * v], [x0 + 16 * v, y0 - 8 * v]]], g]]
+        if shadow_geom(g, v):
+            run("to_crs", src, g, rng.choice(["EPSG:4326", "EPSG:3857", LAEA_C]), [kind, v], rng.random() < 0.3)
+    # a process that deals with more CRSs than any plausible cache bound (self-contained history)
+    run("many_crs", 150 if tier == "quick" else 400, rng.randrange(1000),
+        [[rng.uniform(-1, 1), rng.uniform(5, 60)] for _ in range(rng.randint(1, 3))])
+    # cross-CRS cases re-run after the shared process-history perturbations; recorded through "after_history" so that a
+    # hit replays in a fresh process.  The CRS alphabet of this block is used nowhere else in the check, so the
+    # perturbation really is the first thing the process does with these pairs.
+    def run_after(hist, specs, name, *args):
+        try:
+            ok, detail = PREDICATES[name](*args)
+        except Exception as e:  # noqa: BLE001
+            ok, detail = False, f"raised {type(e).__name__}: {e}"
+        out.count("predicate:after_history:" + "+".join(hist) + ":" + name)
+        out.case(("after", hist, name, args), True)
+        key = "after_history:" + "+".join(hist)
+        if not ok and key not in found:
+            found[key] = detail
+            out.violation(f"c07:{key}", f"after {hist}: {name}{core.short(args, 300)}: {detail}",
+                          {"predicate": "after_history", "args": [list(hist), list(specs), name, list(args)], "observed": detail})
+
+    def cross_cases(specs, k):
+        for _ in range(k):
+            src, dst = rng.sample(specs, 2)
+            lon, lat = HIST_AREA
+            to_src = pyproj_tr("EPSG:4326", src)
+            pts = [list(to_src.transform(lon + rng.uniform(-1, 1), lat + rng.uniform(-1, 1))) for _ in range(rng.randint(2, 4))]
+            g = rng.choice([["Line", pts], ["MultiPoint", pts], ["Polygon", pts[:3] + [pts[0]], []] if len(pts) >= 3 else ["Point", pts[0]]])
+            yield src, g, dst
+
+    for hist in (("authority-order-first",), ("queries-first", "churn")):
+        specs = HIST_SPECS[hist[0]]
+        crshist.perturb(hist, specs)
+        for src, g, dst in cross_cases(specs, 12 if tier == "quick" else 60):
+            run_after(hist, specs, "to_crs", src, g, dst, None)
+            run_after(hist, specs, "roundtrip", src, g, dst)
     # the transformer itself (numpy path, NaN harmonisation); 4326 -> 4258 is a no-op pipeline that lets a NaN through per axis
     nan = float("nan")
     for src, dst in [("EPSG:4326", "EPSG:4258"), ("EPSG:4326", "EPSG:3857"), ("EPSG:3857", "EPSG:4326"),
@@ -1287,7 +1414,7 @@ def run(out, tier, scratch):
         "CRS.__eq__ decides 'already in the target CRS' (oracle; property C19)",
         "exact rational model of binary64 coordinates (inputs restricted to an exactness domain; escapes are discarded and counted)",
     ]
-    cases = gen_cases(out, tier)
+    cases, preds = gen_cases(out, tier)
     fails, log = core.coq_eval_failures(["Base.Result", "Model.Densify", "Model.DensifyCases"], "case", "check", cases,
                                         scratch, shard=60)
     detail = ""
@@ -1295,7 +1422,9 @@ def run(out, tier, scratch):
         detail = "model and implementation differ on: " + " | ".join(core.short(cases[i], 700) for i in fails[:4])
     out.oblige("correspondence:Model.Densify vs odc.geo.geom (densify, segmented, _auto_resolution, to_crs)",
                "correspondence", not fails, detail)
-    search(out, tier)
+    # a disagreeing case is judged by the property predicate on that very input: if it is a property violation the
+    # disagreement itself becomes the concrete replay
+    search(out, tier, first=[preds[i] for i in fails if preds[i] is not None][:12])
 
 
 def replay(rp) -> int:
